@@ -137,7 +137,7 @@ def obj_of(system, mom, vals):
     return vector.obj(**{(MOM.get(n, n) if mom else n): vals[n] for n in names_of(system)})
 
 
-NUMPY_LAYOUTS = ["np()", "np(3)", "np(2,2)", "np(3)-int", "np(0)", "np(1)", "np(2,1,2)", "np(3)-spacelike", "np(3)-strided", "np(3)-readonly", "np(3,1)", "np(1,3)"]
+NUMPY_LAYOUTS = ["np()", "np(3)", "np(2,2)", "np(3)-int", "np(0)", "np(1)", "np(2,1,2)", "np(3)-spacelike", "np(3)-strided", "np(3)-readonly", "np(3,1)", "np(1,3)", "np(3)-bigendian"]
 AWK_LAYOUTS = ["ak-flat", "ak-jagged", "ak-nested", "ak-option", "ak-record", "ak-rawzip", "ak-regular", "ak-flat-int", "ak-empty", "ak-one", "ak-jagged-spacelike", "ak-record-hits", "ak-record-label", "ak-masked", "ak-padnone", "ak-indexed", "ak-record-at2"]
 
 
@@ -147,7 +147,7 @@ def nest(layout):
             "ak-flat": ["E", "E", "E"], "ak-jagged": [["E", "E"], [], ["E"]], "ak-nested": [[["E"], ["E", "E"]], [], [[]]],
             "ak-option": [["E", None], None, ["E"]], "ak-record": "E", "object": "E", "ak-rawzip": [["E", "E"], [], ["E"]], "ak-regular": [["E", "E", "E"], ["E", "E", "E"]], "np(3)-int": ["E", "E", "E"], "ak-flat-int": ["E", "E", "E"],
             "np(0)": [], "np(1)": ["E"], "np(2,1,2)": [[["E", "E"]], [["E", "E"]]], "ak-empty": [], "ak-one": [["E"]],
-            "np(3)-spacelike": ["E", "E", "E"], "ak-jagged-spacelike": [["E", "E"], [], ["E"]], "ak-record-hits": "E", "ak-record-label": "E", "np(3)-strided": ["E", "E", "E"], "np(3)-readonly": ["E", "E", "E"], "np(3,1)": [["E"], ["E"], ["E"]], "np(1,3)": [["E", "E", "E"]],
+            "np(3)-spacelike": ["E", "E", "E"], "ak-jagged-spacelike": [["E", "E"], [], ["E"]], "ak-record-hits": "E", "ak-record-label": "E", "np(3)-strided": ["E", "E", "E"], "np(3)-readonly": ["E", "E", "E"], "np(3,1)": [["E"], ["E"], ["E"]], "np(1,3)": [["E", "E", "E"]], "np(3)-bigendian": ["E", "E", "E"],
             "ak-record-at2": "E", "ak-masked": [["E", "E"], None, ["E"]], "ak-padnone": [["E", "E", None], [None, None, None], ["E", None, None]], "ak-indexed": [["E"], ["E", "E"], []]}[layout]
 
 
@@ -170,6 +170,9 @@ def build(layout, system, mom, rng, extras=False):
         return vector.zip({key(n): ak.Array(np.array([e[n] for e in struct], dtype=np.int64)) for n in names}), struct
     if layout == "object":
         return obj_of(system, mom, struct), struct
+    if layout == "np(3)-bigendian":
+        # columns in non-native byte order (data read from big-endian files)
+        return vector.array({key(n): np.array([e[n] for e in struct], dtype=">f8") for n in names}), struct
     if layout == "np(3)-strided":
         # a non-contiguous view: every second element of a longer array
         filler = one(system, rng)
